@@ -2,11 +2,11 @@
 //! allocation on any bytes.
 //!
 //! case line:   `read <hex(bytes)> [cat=<generator category>]`
-//! model line:  `read <hex(bytes)> sizes:<size_of of the 17 element types>`
+//! model line:  `read <hex(bytes)> sizes:<size_of of the 19 element types>`
 //!
 //! `exec` runs the REAL reader on a watchdogged worker thread with the counting allocator on:
 //!   phase A (compared with the Lean model `MdModel.Dump.readAll`): `Minidump::read`, then
-//!           `get_stream` of the ten modelled stream types, rendered canonically; `get_memory`;
+//!           `get_stream` of the eleven modelled stream types, rendered canonically; `get_memory`;
 //!           the exception printer's parameter loop and `get_crash_address`.
 //!   phase B (oracle only): `get_stream` of every other stream type the crate exports, every
 //!           accessor named in the property's `observe_at`, every `print` (the `--dump` path).
@@ -374,6 +374,39 @@ fn show_exception(dump: &Dump) -> String {
     }
 }
 
+fn show_crashpad(dump: &Dump) -> String {
+    match dump.get_stream::<MinidumpCrashpadInfo>() {
+        Err(e) => err_name(&e),
+        Ok(c) => {
+            let dict = |d: &std::collections::BTreeMap<String, String>| {
+                let items: Vec<String> = d.iter().map(|(k, v)| format!("{}:{}", hex(k.as_bytes()), hex(v.as_bytes()))).collect();
+                format!("[{}]", items.join(","))
+            };
+            let mut s = format!("ok {}/D{}/M[", c.raw.version, dict(&c.simple_annotations));
+            for m in &c.module_list {
+                let l: Vec<String> = m.list_annotations.iter().map(|x| hex(x.as_bytes())).collect();
+                let a: Vec<String> = m
+                    .annotation_objects
+                    .iter()
+                    .map(|(k, v)| {
+                        let v = match v {
+                            MinidumpAnnotation::Invalid => "i".to_string(),
+                            MinidumpAnnotation::String(x) => format!("s{}", hex(x.as_bytes())),
+                            MinidumpAnnotation::UserDefined(r) => format!("u{}:{}", r.ty, r.value),
+                            MinidumpAnnotation::Unsupported(r) => format!("x{}:{}", r.ty, r.value),
+                            _ => "?".to_string(),
+                        };
+                        format!("{}:{}", hex(k.as_bytes()), v)
+                    })
+                    .collect();
+                let _ = write!(s, "{}/{}/L[{}]/D{}/A[{}];", m.module_index, m.raw.version, l.join(","), dict(&m.simple_annotations), a.join(","));
+            }
+            s.push(']');
+            s
+        }
+    }
+}
+
 // ------------------------------------------------------------------------------ phase B (sweep)
 
 fn sweep(dump: &Dump, o: &mut Out) {
@@ -695,6 +728,7 @@ fn run_case(all: &[u8], shared: &Arc<meter::Shared>) -> CaseOut {
             add(&mut o, "tinfo", "get_stream::<MinidumpThreadInfoList>", &|| show_thread_info(&dump));
             add(&mut o, "hnd", "get_stream::<MinidumpHandleDataStream>", &|| show_handles(&dump));
             add(&mut o, "exc", "get_stream::<MinidumpException> + print + get_crash_address", &|| show_exception(&dump));
+            add(&mut o, "cp", "get_stream::<MinidumpCrashpadInfo>", &|| show_crashpad(&dump));
             let gm = o
                 .guard("get_memory", || match dump.get_memory() {
                     Some(UnifiedMemoryList::Memory64(_)) => "mem64",
@@ -754,6 +788,8 @@ fn mem_sizes() -> String {
         s::<MinidumpHandleObjectInformation>(),
         s::<md::MINIDUMP_THREAD_INFO>(),
         s::<MinidumpThreadInfo>(),
+        s::<String>(),
+        s::<MinidumpModuleCrashpadInfo>(),
     ]
     .iter()
     .map(|n| n.to_string())
